@@ -210,6 +210,10 @@ def validate(func, *args, **kwds):
         p_kwds = p_defaults = {}
         p_required = set()
 
+    # get the names of any keyword-only parameters (not reported by signature)
+    try: kwonly = set(inspect.getfullargspec(func).kwonlyargs)
+    except TypeError: kwonly = set()
+
     # get bad args/kwds from markup
     bad_args = set(i.strip('!') for i in named if i.startswith('!'))
     bad_kwds = set(i.strip('!') for i in defaults if i.startswith('!'))
@@ -217,7 +221,7 @@ def validate(func, *args, **kwds):
     named, defaults = strip_markup(named, defaults)
 
     # FAIL if partial built for **kwds, but **kwds not used in func.func
-    p_varkwds = set(p_kwds) - bad_kwds - bad_args
+    p_varkwds = set(p_kwds) - bad_kwds - bad_args - kwonly
     if p_varkwds and not haskwds:
         raise TypeError("%s() got an unexpected keyword argument '%s'" % (func.__name__,p_varkwds.pop()))
 
@@ -233,7 +237,7 @@ def validate(func, *args, **kwds):
         raise TypeError("%s() takes at most %d arguments (%d given)" % (func.__name__, len(named)+len(p_args), len(p_args)+len(args)+len(kwds)))
 
     # check any varkwds; FAIL if func doesn't take varkwds
-    var_kwds = set(kwds) - set(named)
+    var_kwds = set(kwds) - set(named) - kwonly
     if var_kwds and not haskwds:
         raise TypeError("%s() got an unexpected keyword argument '%s'" % (func.__name__,var_kwds.pop()))
 
@@ -253,8 +257,8 @@ def validate(func, *args, **kwds):
     if duplicates:
         raise TypeError("%s() got multiple values for keyword argument '%s'" % (func.__name__, duplicates.pop()))
 
-    # get names of required args
-    required = set(named) - set(defaults)
+    # get names of required args (including required keyword-only args)
+    required = set(named).union(kwonly) - set(defaults)
 
     # mixin defaults
     defaults.update(kwds)
